@@ -1088,3 +1088,44 @@ def gen_C01(r):  # noqa: F811
 
 
 GEN["C09"], GEN["C04"], GEN["C01"] = gen_C09, gen_C04, gen_C01
+
+
+
+# ---- cross-profile mixing -------------------------------------------------------------------------
+# Every oracle only looks at the operations it understands, so a property can also be checked on the
+# histories another property's profile draws (other command sequences, git states, planted files ...).
+
+_MIX = {
+    "C01": ["C03", "C04", "C09", "C02", "C18", "C07"],
+    "C02": ["C01", "C07", "C18", "C08", "C11", "C13"],
+    "C03": ["C01", "C04", "C09", "C18"],
+    "C04": ["C01", "C03", "C09"],
+    "C07": ["C02", "C18", "C08", "C11", "C05"],
+    "C08": ["C11", "C13", "C02", "C07"],
+    "C09": ["C01", "C03", "C04", "C10"],
+    "C18": ["C07", "C02", "C01"],
+    "C10": ["C07", "C09"],
+}
+
+
+def _mixed(pid, own):
+    others = _MIX[pid]
+
+    def gen(r):
+        if r.random() < 0.18:
+            scn = GEN_BASE[r.choice(others)](r)
+            scn.pop("enum", None)
+            # manual additions are drawn for one property's oracle (conflicting combine entries, gc
+            # look-alikes); the borrowing oracle does not model their effect on a run
+            scn["history"] = [o for o in scn["history"] if o["op"] != "plant"]
+            for o in scn["history"]:
+                o.pop("combine_conflict_hint", None)
+            return scn
+        return own(r)
+
+    return gen
+
+
+GEN_BASE = dict(GEN)
+for _pid in _MIX:
+    GEN[_pid] = _mixed(_pid, GEN_BASE[_pid])
